@@ -159,20 +159,8 @@ def run(index, tier="quick", seed=0) -> Result:
         # state attributes the amplitude reads beyond the geometric ones: if such an attribute is stored as a numeric constant
         # somewhere in the polygon classes (e.g. an orientation flag set to 1.0 at construction), it is orientation-free on
         # those histories - evaluate the amplitude with that value
-        from ..polyparity import base_env
-        known_attr = set(base_env())
-        extra_attr = {}
-        for a_ in ast.walk(fnp.node):
-            if isinstance(a_, ast.Attribute) and isinstance(a_.value, ast.Name) and a_.value.id == "self" and f"self.{a_.attr}" not in known_attr \
-                    and isinstance(a_.ctx, ast.Load):
-                for cn_ in ("Polygon", "ConvexPolygon"):
-                    cdef = index.cls(cn_)
-                    for f_ in list(cdef.methods.values()) + [x for p_ in cdef.props.values() for x in (p_.getter, p_.setter) if x]:
-                        for st_ in ast.walk(f_.node):
-                            if isinstance(st_, ast.Assign) and any(isinstance(t_, ast.Attribute) and isinstance(t_.value, ast.Name) and t_.value.id == "self"
-                                                                   and t_.attr == a_.attr for t_ in st_.targets) \
-                                    and isinstance(st_.value, ast.Constant) and isinstance(st_.value.value, (int, float)):
-                                extra_attr[f"self.{a_.attr}"] = SV("scal", [Poly.const(st_.value.value)])
+        from ..polyparity import constant_state
+        extra_attr = constant_state(fnp, index)
         ret, ev = evaluate(fnp, {"q": qv, "density": SV("scal", [Poly.atom("RHO")])}, extra_attr=extra_attr, index=index)
         stores = {k: [par(c) for c in v.comps] for k, v in ev.masked_stores.items()}
         zero = [v for k, v in stores.items() if "~" not in k]
